@@ -66,7 +66,7 @@ Section Spec.
   (** every value conforming to [s] is accepted by the derive schema [t] *)
   Fixpoint compat (s : sty) (t : ty) {struct t} : bool :=
     match t with
-    | TAny => true
+    | TAny | TConst _ => true
     | TOpt t' => not_any s && compat s t'
     | TStr | TEnum _ => match s with SStr | SId _ => true | _ => false end
     | TId c => match s with SId c' => (c =? c')%N | _ => false end
